@@ -336,33 +336,34 @@ class CompProp(props.BaseProp):
 C10 = props.register(CompProp())
 C10.manifest = {
     "text": "Unbounded Coq theorems (all graph states, generic name type, axiom-free) about the faithful model of "
-            "query.rs breadth_first_search and components/*.rs: (1) breadth_first_search(x) lists x first, no node twice, and "
+            "query.rs breadth_first_search and components/*.rs. (1) breadth_first_search(x) lists x first, no node twice, and "
             "exactly the nodes reachable from x along the adjacency it reads (loop invariant; sound AND complete), and it "
             "returns - the model's fuel |V|+2 is never exhausted and no unwrap fails - from every node of every state whose "
-            "adjacency query is total and closed (decided by an executable test); (2) connected_components and "
+            "adjacency query is total and closed (decided by an executable test). (2) connected_components and "
             "weakly_connected_components ARE the partition of the node list into reachability classes (non-empty, disjoint, "
-            "each node once, same set iff connected) for every state whose adjacency is symmetric and closed (again an "
-            "executable test, proved to imply the hypothesis); number_of_connected_components is the length, "
-            "node_connected_component(x) the class of x, NodeNotFound for an absent name, WrongMethod on the other kind; "
-            "strongly_connected_components (the iterative preorder/low-link loop), for EVERY neighbour iteration order: the "
-            "emitted sets are non-empty, no node occurs twice and every node is in one of them (18-clause stack invariant); "
-            "(3) bfs_equal_size_partitions(k): every returning run has k >= 1, exactly k parts, every node index in exactly one "
-            "part, no part longer than n/k+1; (4) a VERIFIED CHECKER: check_components g rel comps = true implies that comps is "
-            "the partition of the node list by reachability over the stored EDGE LIST (ignoring direction / both "
-            "directions), proved against the inductive definition of reachability - evaluated in Coq on the model's "
-            "connected, weak and strong components of every generated graph. The model is tied to the code on every run: "
-            "all component sets, counts, per-node components (every node + an absent name), BFS from every node, "
-            "bfs_equal_size_partitions for k=1..n+2 are compared, and a Python oracle re-checks the partition / "
-            "reachability / size statements directly on the implementation's output.",
-    "note": "strongly_connected_components: the partition part (non-empty, disjoint, covering) is an unbounded theorem; "
-            "that two nodes share a set IFF they are mutually reachable is NOT proved for the loop (stretch, DESIGN.md "
-            "F.3) - it is established per generated graph by the verified checker on the model's output (under two "
-            "neighbour iteration orders, which must agree) plus model/implementation equality plus the oracle. Termination / no index panic of bfs_equal_size_partitions and the fuel of plain_bfs and of the "
-            "SCC loop are validated per case (an OutOfFuel/Panic outcome of the model would differ from the implementation), "
-            "not proved. The BFS/partition theorems speak about reachability along the adjacency query the function reads; "
-            "that this adjacency agrees with the edge list is checked per case (coherence tests + edge-list checker), its "
-            "unbounded proof belongs to C02/C03. Trusted: Coq kernel + vm_compute; harness/printers/diff. Axioms: none "
-            "(every pinned theorem is Closed under the global context). Repaired defect: F18 (fix commit 562ac6a).",
-    "technique": "Coq proof (loop invariants, verified partition checker) + differential correspondence vs vm_compute "
-                 "model + property oracle on the implementation's output",
+            "each node once, same set iff connected) for every state whose adjacency is symmetric and closed (an executable "
+            "test, proved to imply the hypothesis); number_of_connected_components is the length, node_connected_component(x) "
+            "the class of x, NodeNotFound for an absent name, WrongMethod on the other kind. (3) "
+            "strongly_connected_components - the iterative preorder/low-link loop - is FULLY correct for EVERY neighbour "
+            "iteration order: the emitted sets are non-empty, no node occurs twice, every node is in one of them, and every "
+            "emitted set is exactly one class of mutual reachability along the successor relation (29-clause stack / "
+            "low-link invariant: soundness and maximality); so the result IS the partition into strong components whenever "
+            "successors are nodes of the graph (executable test). (4) bfs_equal_size_partitions(k): every returning run has "
+            "k >= 1, exactly k parts, every node index in exactly one part, no part longer than n/k+1. (5) a VERIFIED "
+            "CHECKER: check_components g rel comps = true implies that comps is the partition of the node list by "
+            "reachability over the stored EDGE LIST (ignoring direction / both directions), proved against the inductive "
+            "definition of reachability - evaluated in Coq on the model's connected, weak and strong components of every "
+            "generated graph. The model is tied to the code on every run: all component sets, counts, per-node components "
+            "(every node + an absent name), BFS from every node, bfs_equal_size_partitions for k=1..n+2 are compared, and a "
+            "Python oracle re-checks the partition / reachability / size statements directly on the implementation's output.",
+    "note": "All theorems except BFS termination are partial-correctness statements about runs of the model that return: "
+            "termination / absence of index panics of bfs_equal_size_partitions and the fuel of plain_bfs and of the SCC loop "
+            "are validated per case (an OutOfFuel/Panic outcome of the model would differ from the implementation), not "
+            "proved. The theorems speak about reachability along the adjacency index each function reads (neighbour query, "
+            "successors/predecessors name maps); that these agree with the edge list is checked per case (coherence tests + "
+            "the edge-list checker on the model's output under two neighbour orders), its unbounded proof belongs to C02/C03. "
+            "Trusted: Coq kernel + vm_compute; harness/printers/diff. Axioms: none (every pinned theorem is Closed under the "
+            "global context). Repaired defect: F18 (fix commit 562ac6a).",
+    "technique": "Coq proof (loop invariants incl. the full Tarjan-style SCC invariant, verified partition checker) + "
+                 "differential correspondence vs vm_compute model + property oracle on the implementation's output",
 }
